@@ -1,7 +1,159 @@
-(* Observation commands: filled in by the corresponding property work; definitions only. *)
+(* Observation commands of the specifier-set domain (C05, C06).  Definitions only.
+   One command, "s.run": the arguments are a small stack program over Specifier / SpecifierSet objects.
+     S ov text            push SpecifierSet(text, prereleases=ov)                      (ov, arg, inst : T | F | N)
+     L ov n (mov text)*n  push SpecifierSet([Specifier(text, prereleases=mov), ...], prereleases=ov)
+     X ov text            push Specifier(text, prereleases=ov)
+     &                    pop b, pop a, push a & b            &s text   replace the top a by a & "text"
+     P ov                 top.prereleases = ov
+     c arg inst k item    top.contains(item, prereleases=arg[, installed=inst])        (k : s = str item, v = Version object)
+     in k item            item in top
+     f arg n (k item)*n   list(top.filter(items, prereleases=arg))  -> positions and kinds of the returned objects
+     str | len | pre | eq output str(top) | len(top) | top.prereleases | top-1 == top
+   Output: the outputs joined by ';'; a failing construction ends the run with !E (InvalidSpecifier) or !V (ValueError). *)
 From Coq Require Import List NArith Bool String.
 Import ListNotations.
-Require Import Show.
+Require Import VParse Py SpecModel SpecContains SetsModel Show.
 Open Scope N_scope.
 
-Definition run_sets (cmd : list N) (args : list (list N)) : option (list N) := None.
+
+Definition parse_tri (s : list N) : option bool :=
+  if seqb s [84] then Some true else if seqb s [70] then Some false else None.
+Definition show_tri (o : option bool) : list N := match o with Some true => [84] | Some false => [70] | None => [78] end.
+Definition show_outcome (o : outcome) : list N := match o with Ans b => show_bool b | BadItem => [69] | Escaped => [88] end.
+Definition show_nat (n : nat) : list N := show_N (N.of_nat n).
+
+Fixpoint take_pairs (n : nat) (args : list (list N)) : list (list N * list N) * list (list N) :=
+  match n, args with
+  | S n', a :: b :: t => let '(l, r) := take_pairs n' t in ((a, b) :: l, r)
+  | _, _ => ([], args)
+  end.
+Fixpoint members_of (l : list (list N * list N)) : option (list member) :=
+  match l with
+  | [] => Some []
+  | (mo, t) :: r => match Specifier t with
+                    | Some sp => option_map (cons {| m_sp := sp; m_ov := parse_tri mo |}) (members_of r)
+                    | None => None
+                    end
+  end.
+Definition show_fout (kinds : list (list N)) (r : fout) : list N :=
+  match r with
+  | FOk ps => join [46] (map (fun p => show_nat p ++ nth p kinds [63]) ps)
+  | FBad => [69]
+  | FEsc => [88]
+  end.
+Definition show_obs (kinds : list (list N)) (o : obs) : list N :=
+  match o with
+  | ObsNone => []
+  | ObsC r => show_outcome r
+  | ObsF r => asc "[" ++ show_fout kinds r ++ asc "]"
+  | ObsP p => show_tri p
+  end.
+Definition bang_E := asc "!E".
+Definition bang_V := asc "!V".
+Definition bad_prog := asc "?prog".
+
+Fixpoint exec (fuel : nat) (stack : list obj) (args : list (list N)) (out : list (list N)) : list (list N) :=
+  match fuel with
+  | O => out
+  | S fuel' =>
+    match args with
+    | [] => out
+    | op :: rest =>
+      if seqb op (asc "S") then
+        match rest with
+        | o :: t :: rest' => match SpecifierSet t (parse_tri o) with
+                             | Some A => exec fuel' (OSet A :: stack) rest' out
+                             | None => bang_E :: out
+                             end
+        | _ => bad_prog :: out
+        end
+      else if seqb op (asc "X") then
+        match rest with
+        | o :: t :: rest' => match Specifier t with
+                             | Some sp => exec fuel' (OSpec sp (parse_tri o) :: stack) rest' out
+                             | None => bang_E :: out
+                             end
+        | _ => bad_prog :: out
+        end
+      else if seqb op (asc "L") then
+        match rest with
+        | o :: n :: rest' =>
+            let '(prs, rest'') := take_pairs (N.to_nat (parse_N n)) rest' in
+            match members_of prs with
+            | Some l => exec fuel' (OSet (SpecifierSet_of l (parse_tri o)) :: stack) rest'' out
+            | None => bang_E :: out
+            end
+        | _ => bad_prog :: out
+        end
+      else if seqb op (asc "&") then
+        match stack with
+        | OSet B :: OSet A :: st => match set_and A B with
+                                    | Some C => exec fuel' (OSet C :: st) rest out
+                                    | None => bang_V :: out
+                                    end
+        | _ => bad_prog :: out
+        end
+      else if seqb op (asc "&s") then
+        match rest, stack with
+        | t :: rest', OSet A :: st =>
+            match SpecifierSet t None with
+            | None => bang_E :: out
+            | Some B => match set_and A B with
+                        | Some C => exec fuel' (OSet C :: st) rest' out
+                        | None => bang_V :: out
+                        end
+            end
+        | _, _ => bad_prog :: out
+        end
+      else if seqb op (asc "P") then
+        match rest, stack with
+        | o :: rest', top :: st => exec fuel' (fst (step top (OpSet (parse_tri o))) :: st) rest' out
+        | _, _ => bad_prog :: out
+        end
+      else if seqb op (asc "c") then
+        match rest, stack with
+        | a :: i :: _ :: t :: rest', top :: _ =>
+            exec fuel' stack rest' (show_obs [] (snd (step top (OpContains (parse_tri a) (parse_tri i) t))) :: out)
+        | _, _ => bad_prog :: out
+        end
+      else if seqb op (asc "in") then
+        match rest, stack with
+        | _ :: t :: rest', top :: _ => exec fuel' stack rest' (show_obs [] (snd (step top (OpIn t))) :: out)
+        | _, _ => bad_prog :: out
+        end
+      else if seqb op (asc "f") then
+        match rest, stack with
+        | a :: n :: rest', top :: _ =>
+            let '(prs, rest'') := take_pairs (N.to_nat (parse_N n)) rest' in
+            exec fuel' stack rest'' (show_obs (map fst prs) (snd (step top (OpFilter (parse_tri a) (map snd prs)))) :: out)
+        | _, _ => bad_prog :: out
+        end
+      else if seqb op (asc "str") then
+        match stack with
+        | OSet A :: _ => exec fuel' stack rest (set_str A :: out)
+        | OSpec sp _ :: _ => exec fuel' stack rest (spec_str sp :: out)
+        | _ => bad_prog :: out
+        end
+      else if seqb op (asc "len") then
+        match stack with
+        | OSet A :: _ => exec fuel' stack rest (show_nat (set_len A) :: out)
+        | _ => bad_prog :: out
+        end
+      else if seqb op (asc "pre") then
+        match stack with
+        | top :: _ => exec fuel' stack rest (show_obs [] (snd (step top OpPre)) :: out)
+        | _ => bad_prog :: out
+        end
+      else if seqb op (asc "eq") then
+        match stack with
+        | OSet B :: OSet A :: _ => exec fuel' stack rest (show_bool (set_eqb A B) :: out)
+        | OSpec b _ :: OSpec a _ :: _ => exec fuel' stack rest (show_bool (sp_eqb a b) :: out)
+        | _ => bad_prog :: out
+        end
+      else bad_prog :: out
+    end
+  end.
+
+Definition run_sets (cmd : list N) (args : list (list N)) : option (list N) :=
+  if seqb cmd (asc "s.run") then Some (join [59] (rev (exec (S (List.length args)) [] args [])))
+  else None.
